@@ -73,11 +73,12 @@ def build_and_audit(force=False):
         thms = spec.get("theorems", [])
         if not mod or not thms:
             continue
-        if any(mod == f or f.startswith("CkptVerif.Proofs") and False for f in failed):
+        if any(m in failed for m in (mod if isinstance(mod, list) else [mod])):
             for t in thms:
                 res["axioms"][t] = None
             continue
-        src = f"import {mod}\n" + "".join(f"#print axioms {t}\n" for t in thms)
+        mods = mod if isinstance(mod, list) else [mod]
+        src = "".join(f"import {m}\n" for m in mods) + "".join(f"#print axioms {t}\n" for t in thms)
         path = os.path.join(core.LEAN_DIR, ".lake", f"audit_{prop}.lean")
         with open(path, "w") as f:
             f.write(src)
